@@ -186,10 +186,19 @@ impl Idle {
                             radio::Response::TxDone(ms) => {
                                 data_rxwindow1_timeout::<R, N>(frame, rx_windows, mac, radio, ms)
                             }
-                            _ => (State::Idle(self), Err(Error::UnexpectedRadioResponse.into())),
+                            _ => {
+                                // The frame was handed to the radio: its counter is spent.
+                                let _ = mac.rx2_complete();
+                                (State::Idle(self), Err(Error::UnexpectedRadioResponse.into()))
+                            }
                         }
                     }
-                    Err(e) => (State::Idle(self), Err(super::Error::Radio(e))),
+                    Err(e) => {
+                        // The radio may have started transmitting before it failed, so the
+                        // counter of this frame must not be used again for another one.
+                        let _ = mac.rx2_complete();
+                        (State::Idle(self), Err(super::Error::Radio(e)))
+                    }
                 }
             }
         }
